@@ -174,20 +174,22 @@ theorem extrasOf_sub (w : World) (k : Nat) : ∀ e ∈ w.extrasOf k, e ∈ w.log
   obtain ⟨i, _, hi⟩ := List.mem_filterMap.1 he
   exact List.mem_of_find?_eq_some hi
 
+/-- The parts of the server world no action changes. -/
+def World.static (w : World) : List Entry × Int × Int × List (Nat × Int) × List (Nat × Int) × List (Nat × Int) :=
+  (w.log, w.p0, w.q0, w.c0, w.persisted, w.cr)
+
 /-- The oracle changes nothing of the server's static data. -/
-theorem commonDiff_static (w : World) (pts qts : Int) :
-    (w.commonDiff pts qts).1.log = w.log ∧ (w.commonDiff pts qts).1.p0 = w.p0 ∧
-    (w.commonDiff pts qts).1.q0 = w.q0 ∧ (w.commonDiff pts qts).1.c0 = w.c0 := by
+theorem commonDiff_static (w : World) (pts qts : Int) : (w.commonDiff pts qts).1.static = w.static := by
   unfold World.commonDiff
   split
-  · exact ⟨rfl, rfl, rfl, rfl⟩
+  · rfl
   · split
-    · exact ⟨rfl, rfl, rfl, rfl⟩
+    · rfl
     · simp only
-      split <;> exact ⟨rfl, rfl, rfl, rfl⟩
+      split <;> rfl
 
 theorem commonDiff_log (w : World) (pts qts : Int) : (w.commonDiff pts qts).1.log = w.log :=
-  (commonDiff_static w pts qts).1
+  congrArg (·.1) (commonDiff_static w pts qts)
 
 /-- What `commonDiff` answers when it answers `diff`. -/
 theorem commonDiff_diff (w : World) (pts qts : Int) (msgs enc others : List Entry) (p q : Int) (slice : Bool)
@@ -379,16 +381,14 @@ theorem commonDiff_others_sub (w : World) (pts qts : Int) (msgs enc others : Lis
 
 /-! ### The channel difference -/
 
-theorem chanDiff_static (w : World) (c : Nat) (pts : Int) :
-    (w.chanDiff c pts).1.log = w.log ∧ (w.chanDiff c pts).1.p0 = w.p0 ∧
-    (w.chanDiff c pts).1.q0 = w.q0 ∧ (w.chanDiff c pts).1.c0 = w.c0 := by
+theorem chanDiff_static (w : World) (c : Nat) (pts : Int) : (w.chanDiff c pts).1.static = w.static := by
   unfold World.chanDiff
   split
-  · exact ⟨rfl, rfl, rfl, rfl⟩
+  · rfl
   · split
-    · exact ⟨rfl, rfl, rfl, rfl⟩
+    · rfl
     · simp only
-      split <;> exact ⟨rfl, rfl, rfl, rfl⟩
+      split <;> rfl
 
 theorem chanDiff_cases (w : World) (c : Nat) (pts : Int) :
     let cand := w.happened.filter fun e : Entry => e.seqKey == some (2 + c) && decide (e.pos > pts)
